@@ -575,7 +575,9 @@ func TestProp(t *testing.T) {
 		r.Count(nt, labels...)
 		r.Sample(c.Kind+"/"+c.T.Kind+"/"+outcome, c)
 		if rt != nil {
-			if v.OK && c.Kind != "e2e" && c.Kind != "basic" {
+			// (single-bit flips are judged in crash-isolated workers - the dependency's NDR decoder may ask for gigabytes - and
+			// therefore stay out of the in-process concurrent pass)
+			if v.OK && c.Kind != "e2e" && c.Kind != "basic" && c.T.Kind != "bit" && c.T.Kind != "cut" {
 				pool.Add(check, c)
 			}
 			if r.Judge(check, c, v) {
